@@ -20,9 +20,9 @@ const (
 // Ob is one obligation: a rule instance evaluated on a construct.
 type Ob struct {
 	Rule      string `json:"rule"`
-	Construct string `json:"construct"`       // function / field / call site the obligation is about (no line numbers)
-	What      string `json:"what,omitempty"`  // short stable description of the clause on that construct
-	Pos       string `json:"pos,omitempty"`   // file:line, for reports only
+	Construct string `json:"construct"`      // function / field / call site the obligation is about (no line numbers)
+	What      string `json:"what,omitempty"` // short stable description of the clause on that construct
+	Pos       string `json:"pos,omitempty"`  // file:line, for reports only
 	Status    string `json:"status"`
 	Detail    string `json:"detail,omitempty"` // path / guard found / reason
 	Trivial   bool   `json:"trivial,omitempty"`
@@ -78,8 +78,10 @@ func (c *Ctx) check(cond bool, construct, what, pos, okDetail, badDetail string)
 	return cond
 }
 
-func (c *Ctx) inst(n int)         { c.res.Instances += n }
-func (c *Ctx) note(f string, a ...interface{}) { c.res.Notes = append(c.res.Notes, fmt.Sprintf(f, a...)) }
+func (c *Ctx) inst(n int) { c.res.Instances += n }
+func (c *Ctx) note(f string, a ...interface{}) {
+	c.res.Notes = append(c.res.Notes, fmt.Sprintf(f, a...))
+}
 
 // Rule is a named rule with its minimum instance count.
 type Rule struct {
